@@ -31,4 +31,4 @@ def streams(ctx):
     return [bfs_stream(ctx, c02_pred, "dc", saturates), make_stream("srv", cases, c02_pred,
                         "%d generated fault-free scripts + corpus; every snapshot compared, in-progress <= L checked on the implementation" % n,
                         saturates),
-            bld_stream(ctx, ("C02",), ["", "a", "c", "b", "cb", "x", "bx"], 96, 1500, ls=(1, 1, 2, 3, 4))]
+            bld_stream(ctx, ("C02",), ["", "a", "c", "b", "cb", "x", "bx", "z", "cz"], 104, 1500, ls=(1, 1, 2, 3, 4))]
